@@ -105,6 +105,10 @@ def compare_costs(orig, emitted, push0, rnd, k):
         # no informative state (all halt out of gas): fall back to the static estimate
         s0, s1 = costs.static_gas(orig, push0), costs.static_gas(emitted, push0)
         out["static_fallback"] = True
+        # without any informative state the dynamic part of EXP (50 gas per exponent byte) is unknown: when the two
+        # blocks do not contain the same number of EXP instructions the static estimate cannot order them
+        if sum(1 for n_, _ in orig if n_ == "EXP") != sum(1 for n_, _ in emitted if n_ == "EXP"):
+            out["static_undecided"] = True
         out["gas_worse"] = (None, s0, s1) if s1 > s0 else None
         if s1 > s0:
             out["only_exp_pricing"] = costs.static_gas(emitted, push0, flat_exp=True) <= costs.static_gas(orig, push0, flat_exp=True)
@@ -169,6 +173,9 @@ def handle(case):
     if c.get("static_fallback"):
         _count("changed_pairs_without_informative_state")
     why = judge(crit, c)
+    if c.get("static_undecided"):
+        _count("changed_pairs_undecided_by_the_static_fallback")
+        why = None if (why and ("gas" in why or "another criterion" in why or "without improvement" in why)) else why
     if c["bytes"][1] < c["bytes"][0]:
         _count("strictly_smaller")
     if c["length"][1] < c["length"][0]:
@@ -246,6 +253,7 @@ def run():
                        "cheaper_gas_on_some_state": c.get("strictly_cheaper_gas_on_some_state", 0),
                        "gas_states_metered": c.get("gas_states", 0),
                        "changed_pairs_without_informative_state": c.get("changed_pairs_without_informative_state", 0),
+                       "changed_pairs_undecided_by_the_static_fallback": c.get("changed_pairs_undecided_by_the_static_fallback", 0),
                        "blocks_per_option_set": dict(col.by_group), "totals": tot,
                        "budget_exceeded_cases": {k: v for k, v in col.stat.items() if k.startswith("budget_")}, "pool": st})
     r.assumptions = ["bytes per solc AssemblyItem::bytesRequired with address length 2; gas metered by vlib/evm.py "
